@@ -66,6 +66,11 @@ func init() {
 					r.Unresolved("no else-if on an error value found")
 				}
 			}},
+			{ID: "C17.R18", Floor: 6, Doc: "every loop without a condition in the module can be left (return, break out, panic): no background goroutine is unstoppable by construction", Run: func(p *Program, r *Report) {
+				if endlessLoops(p, r) == 0 {
+					r.Unresolved("no loop without a condition in the module")
+				}
+			}},
 			{ID: "C17.R17", Floor: 3, Doc: "a connection a function obtains is closed, returned, stored or handed on on every path (except where obtaining it failed)", Run: func(p *Program, r *Report) {
 				if connLeaks(p, r) == 0 {
 					r.Unresolved("no function obtains a connection together with an error")
